@@ -279,7 +279,8 @@ fn gen_tree(rng: &mut Rng, depth: u32, mix: Mix) -> T {
             }
             7 | 8 => T::Name(gen_name(rng, mix)),
             _ => T::Ref(
-                if mix.far_refs { *rng.pick(&[9999999u32, 10000000, u32::MAX]) } else { *rng.pick(&[0u32, 1, 7, 1000000, 9999999]) },
+                // object numbers beyond the old look-ahead window (9 999 999) are ordinary now
+                if mix.far_refs { *rng.pick(&[9999999u32, 10000000, u32::MAX]) } else { *rng.pick(&[0u32, 1, 7, 1000000, 9999999, 10000000, u32::MAX - 1, u32::MAX]) },
                 *rng.pick(&[0u16, 1, 65535]),
             ),
         }
